@@ -128,7 +128,7 @@ prop("C04", "exploration", HIST_RULE + "; C04 monitor M-books at every validated
       "once per history, while transactions are pending, the chain grows by 51-56 blocks at once (a transaction finalized long before it is broadcast)",
       "job c04m: a brand-new wallet (own seed, init status 'no scanning') builds coinbases into a non-active account, more than 100 blocks pass, then 'default' and then that account are refreshed: its records must be its outputs in the UTXO set",
       "refreshes that report validated=false or an error are not judged"],
-     required_hist=["books:judged", "transition:Unconfirmed->Unspent", "transition:Locked->Spent", "transition:Unspent->Locked", "op:refresh-not-validated", "op:restart", "op:burst-of-more-than-50-blocks", "books:judged-for-an-account-refreshed-after-another"])
+     required_hist=["books:judged", "transition:Unconfirmed->Unspent", "transition:Locked->Spent", "transition:Unspent->Locked", "op:refresh-not-validated", "op:restart", "op:burst-of-more-than-50-blocks", "books:judged-for-an-account-refreshed-after-another", "op:coinbase-re-requested-under-another-active-account:mined"])
 
 prop("C15", "exploration", HIST_RULE + "; C15 monitor M-keypath: per wallet a map derivation path -> first (commitment, value) over every output record ever "
      "seen (including later deleted ones); a path re-appearing with another commitment or value is a violation unless both are coinbase and the earlier "
@@ -292,7 +292,7 @@ prop("C16", "exploration",
      ["balances are read after a refresh of the account (the figures are relative to the account's confirmed height)",
       "job c16m: same new-wallet/non-active-account situation, then a scan with a start height near the tip: nothing recorded that is in the UTXO set may be lost",
       "mid-chain start heights are not judged for completeness"],
-     required_hist=["restore:matches-chain-truth", "restore:second-scan-no-change", "repair:matches-chain-truth", "repair:second-scan-no-change", "restore:spendable-equals-original", "repair-after-cancel-of-broadcast:matches-chain-truth", "repair-after-reorg:matches-chain-truth", "partial-scan:keeps-records-below-its-range", "restore:account-created-before-the-scan"])
+     required_hist=["restore:matches-chain-truth", "restore:second-scan-no-change", "repair:matches-chain-truth", "repair:second-scan-no-change", "restore:spendable-equals-original", "repair-after-cancel-of-broadcast:matches-chain-truth", "repair-after-reorg:matches-chain-truth", "partial-scan:keeps-records-below-its-range", "restore:account-created-before-the-scan", "op:coinbase-re-requested-under-another-active-account:mined"])
 
 prop("C18", "exploration",
      "a payment from wallet 0 to wallet 1 is mined (0-2 earlier and later blocks mined by the recipient, so that its coinbases can be orphaned) and confirmed; then "
